@@ -18,7 +18,7 @@ RULE = (
     "38 hand-made PL functions with ordinates in {-1,0,1,2}, 6 two-depth ones), EVERY ordered pair "
     "(A,B) with the differences A-B and 2A-B (sign changes, flat and nearly cancelling segments); grid "
     "class: all value arrays over {-1,0,1,2} on 3 nodes (subsets on 4, 5 nodes), all pairs on the 3-node "
-    "grid; p in {1,2,3,4,1.5,2.5,7,50} and the sup norm; reference = exact rational PL integration "
+    "grid; p in {1,2,3,4,1.5,2.5,7,50} (and 33 exponents 1..150 on a cover) and the sup norm; reference = exact rational PL integration "
     "(oracles/plfun.py). Stability: all pairs of diagrams of <= n bars on {0..4}: sup-norm of the "
     "landscape difference <= bottleneck. state = one function (operand or combination); transition = "
     "one persim call; non-trivial = the function has a segment crossing zero or a negative value."
@@ -112,6 +112,12 @@ def run_case(case, ctx):
             check_norms(ctx, D, lsops.exact_ref(D), "exact", {"A": sa, "B": sb, "op": "A-B"})
             E = ctx.call(lambda: 2 * A - B)
             check_norms(ctx, E, lsops.exact_ref(E), "exact", {"A": sa, "B": sb, "op": "2A-B"})
+        if case["i"] % 9 == 0:
+            # a whole range of exponents on a cover of operands and of one difference each
+            sweep = list(range(1, 25)) + [1.0001, 1.25, 1.75, 2.0001, 3.5, 9.9, 33.3, 100, 150]
+            Bs = lsops.build_exact(specs[(case["i"] * 7 + 3) % len(specs)])
+            for obj in (A, ctx.call(lambda: A - Bs)):
+                check_norms(ctx, obj, lsops.exact_ref(obj), "exact", {"A": sa, "p-sweep": True}, ps=sweep)
         Z = ctx.call(lambda: A - A)
         for p in PS:
             z = ctx.call(Z.p_norm, p)
